@@ -174,6 +174,42 @@ def check_splitter(arg):
     return fails, len(names)
 
 
+def check_alias(arg):
+    """what the public getters hand out is the caller's: editing it must not change what the library knows (run in its own process)"""
+    import cisco_acl
+    from cisco_acl.port_name import PortName
+    platform, version, proto = arg
+    fails = []
+    ref = R.REF_TCP if proto == "tcp" else R.REF_UDP
+    pnm = PortName(protocol=proto, platform=platform, version=version)
+    before_names, before_ports = dict(pnm.names()), dict(pnm.ports())
+    for getter in ("names", "ports"):
+        d = getattr(pnm, getter)()
+        if isinstance(d, dict) and d:
+            k0 = sorted(d, key=str)[0]
+            d[k0] = 8080 if getter == "names" else "zzz"       # change an entry
+            d.pop(sorted(d, key=str)[-1])                        # remove an entry
+            d["mgmt" if getter == "names" else 64999] = 22 if getter == "names" else "mgmt"   # add a private alias
+    # a second object and the classes built afterwards still see the standard tables
+    again = PortName(protocol=proto, platform=platform, version=version)
+    if again.names() != before_names or again.ports() != before_ports:
+        changed = sorted(set(before_names.items()) ^ set(again.names().items()))[:4]
+        fails.append(dict(key="bounded/PortName:aliased-table", what=f"editing the dict returned by PortName.names()/ports() on {platform}/{version}/{proto} changed "
+                                                                     f"the library's own table: {changed}", inputs=dict(platform=platform, version=version, protocol=proto),
+                          cmd=("import sys; sys.path.insert(0, 'props'); import C09\n"
+                               f"fails, _ = C09.check_alias({arg!r})\nprint([f['what'] for f in fails][:3]); sys.exit(1 if fails else 0)\n")))
+    for name, nr in sorted(before_names.items())[:6] + sorted(before_names.items())[-6:]:
+        try:
+            p = cisco_acl.Port(f"eq {name}", platform=platform, version=version, protocol=proto)
+            if p.items != [ref.get(name)]:
+                fails.append(dict(key="bounded/PortName:aliased-table", what=f"after a caller edited a returned table, 'eq {name}' denotes {p.items}, standard {ref.get(name)}",
+                                  inputs=dict(platform=platform, version=version, protocol=proto, name=name)))
+        except Exception as ex:
+            fails.append(dict(key="bounded/PortName:aliased-table", what=f"after a caller edited a returned table, 'eq {name}' is rejected: {ex}",
+                              inputs=dict(platform=platform, version=version, protocol=proto, name=name)))
+    return fails[:3], 1
+
+
 def main(chk):
     chk.prove(["c_names", "c_parsers"])
     facts, tables, pr = table_facts()
@@ -197,6 +233,17 @@ def main(chk):
     chk.add_bounded("real Port / Protocol / PortName over every (platform, version, protocol, name, number, switch)", sum(d for _, d in res) * 2, sum(d for _, d in res),
                     "3 platforms x 6 version strings x {tcp,udp,6,17} x every table name x port_nr; 3 platforms x (every protocol name + 0..255) x protocol_nr",
                     viol, time.time() - t0, [dict(platform="ios", version="15", protocol="tcp", name="syslog")], exhaustive=True)
+    t0 = time.time()
+    acases = [(p, v, proto) for p in PLATFORMS for v in ("0", "15", "16") for proto in ("tcp", "udp")]
+    res = pmap(check_alias, acases)
+    viol = 0
+    for fails, _ in res:
+        for f in fails:
+            viol += 1
+            chk.finding(f["key"], f["what"], inputs=f["inputs"], cmd=f.get("cmd"), key=f["key"])
+    chk.add_bounded("tables handed out by PortName.names()/ports() are copies: editing them changes nothing in the library", len(acases), len(acases),
+                    "3 platforms x 3 versions x tcp/udp; change, removal and addition of an entry, then a fresh PortName and Port objects", viol, time.time() - t0,
+                    [list(acases[0])], exhaustive=True)
     t0 = time.time()
     names = sorted({n for t in tables.values() for n in t})
     res = pmap(check_splitter, [names[i::8] for i in range(8)])
